@@ -96,7 +96,7 @@ theorem MatchG_bn7 {p1 : BidiClass} {cs rs sp : List BidiClass} (h : MatchG ok7 
         rcases h.1.1 with h1 | h1 | h1
         · exact Or.inl h1
         · exact Or.inr (Or.inl h1)
-        · obtain ⟨q, ⟨c, h2, h3⟩, h4, h5⟩ := MatchG_head ok7 h.2 h1
+        · obtain ⟨q, ⟨c, h2, h3⟩, h4, h5⟩ := MatchG_head ok7 h.2 h1.1
           refine Or.inr (Or.inr ⟨q + 1, by omega, ⟨c, by simpa using h2, h3⟩, by simpa using h4, ?_⟩)
           intro i hi1 hi2
           cases i with
